@@ -24,7 +24,7 @@ func init() {
 		Modules: []string{""},
 		Explanation: "Table/exhaustiveness rules on commentparser/language (relations read from the switch statements, not executed) and path/typestate rules on the lexer: (R18.1) every comment style that has a delimiter row is returned by commentStyle for some language, and every language style has some delimiter; " +
 			"(R18.2) for all 47 languages a multi-line start delimiter exists iff an end delimiter exists; (R18.3) singleLineComment and multiLineComment consult the same fallback languages; (R18.4) consumption typestate on lex: no rune is consumed right after a delimiter was consumed without being examined; " +
-			"(R18.5) every cycle of lex and match passes a consuming call; (R18.6) the ChunkIterator goroutine closes its channel on all paths and is the only sender; (R18.7) raw (backquote) strings have no escape character. " +
+			"(R18.5) every cycle of lex and match passes a consuming call; (R18.6) the ChunkIterator goroutine closes its channel on all paths and is the only sender; (R18.7) raw (backquote) strings have no escape character; (R18.8) the text that is lexed is the input itself plus at most a terminating newline (so line numbers are those of the file); (R18.9) the contents of a string literal are recorded as a comment only behind a successful match of a triple quote. " +
 			"Necessary conditions of agreeing with a reference lexer; agreement on all strings and the chunk grouping arithmetic are not decided. R18.4 fails today at four (read, origin) pairs which are recorded as known findings.",
 		Run: runC18,
 	})
@@ -214,7 +214,21 @@ func runC18(c *Ctx) {
 	c.R.OK("R18.4", "lex: every other readRune is preceded by a peek, a failed match or a pending unread on all paths", p.Pos(lex.Pos()), fmt.Sprintf("%d readRune sites, %d match-like sites; %d (read, origin) pairs reachable in state Boundary", lr.Reads, lr.MatchCalls, len(lr.Findings)))
 
 	// R18.5 progress
-	for _, fn := range []*ssa.Function{lex, match} {
+	lexFns := []*ssa.Function{lex, match}
+	for _, f := range pkgFuncs(p, cpPkg) {
+		if f != lex && f != match && f.Signature.Recv() != nil && lex.Signature.Recv() != nil && f.Signature.Recv().Type().String() == lex.Signature.Recv().Type().String() {
+			uses := false
+			for _, call := range core.CallsIn(f) {
+				if cal := call.Common().StaticCallee(); cal != nil && (cal == cfg.Read || cal == match) {
+					uses = true
+				}
+			}
+			if uses && f != cfg.Read && f != cfg.Peek && f != cfg.Unread {
+				lexFns = append(lexFns, f)
+			}
+		}
+	}
+	for _, fn := range lexFns {
 		bad := eng.NonProgressCycles(fn, cfg)
 		if len(bad) == 0 {
 			c.R.OK("R18.5", fn.Name()+": every loop iteration consumes input or exits", p.Pos(fn.Pos()), "no cycle avoids readRune and the success edge of a match-like call")
@@ -223,6 +237,23 @@ func runC18(c *Ctx) {
 			c.R.Fail("R18.5", fmt.Sprintf("%s: a loop can iterate without consuming input", fn.Name()), p.Pos(h.Instrs[0].Pos()), "a cycle through this loop header passes neither readRune nor a successful match: the lexer can hang")
 		}
 	}
+
+	// R18.5 (second half): every cycle of a consuming loop tests for the end of the input
+	for _, fn := range lexFns {
+		bad := eng.CyclesWithoutEOFTest(fn, cfg)
+		if len(bad) == 0 {
+			c.R.OK("R18.5", fn.Name()+": every cycle of a consuming loop tests for end of input", p.Pos(fn.Pos()), "each cycle passes a branch on eof()/peekRune's ok that leaves the loop")
+		}
+		for _, h := range bad {
+			c.R.Fail("R18.5", "a loop of the lexer consumes input but has a cycle that never tests for end of input", p.Pos(h.Instrs[0].Pos()), "at end of input readRune does not advance any more: an unterminated comment or string makes Parse loop forever")
+		}
+	}
+
+	// R18.8 the text that is lexed is the input itself
+	checkParseInput(c, p)
+
+	// R18.9 string contents become a comment only for Python triple-quoted strings
+	checkDocStringFlag(c, p, lexFns, cfg)
 
 	// R18.6 channel discipline in ChunkIterator
 	checkChunkIterator(c, p)
@@ -341,4 +372,115 @@ func checkChunkIterator(c *Ctx, p *core.Prog) {
 		}
 	}
 	c.R.Check(sends > 0 && outside == 0, "R18.6", "ChunkIterator: chunks are sent only by the producer goroutine", p.Pos(fn.Pos()), fmt.Sprintf("%d send site(s), all in the goroutine", sends), "a send happens outside the producer goroutine or there is no send")
+}
+
+// checkParseInput: R18.8.
+func checkParseInput(c *Ctx, p *core.Prog) {
+	parse := p.Func(cpPkg, "Parse")
+	if !c.R.Anchor(parse != nil, "commentparser.Parse") {
+		return
+	}
+	contents := parse.Params[0]
+	var isInput func(v ssa.Value, depth int) bool
+	isInput = func(v ssa.Value, depth int) bool {
+		if depth > 4 {
+			return false
+		}
+		switch x := v.(type) {
+		case *ssa.Convert:
+			return x.X == ssa.Value(contents)
+		case *ssa.Phi:
+			for _, e := range x.Edges {
+				if !isInput(e, depth+1) {
+					return false
+				}
+			}
+			return true
+		case *ssa.BinOp:
+			if x.Op == token.ADD {
+				if s, ok := core.ConstString(x.Y); ok && s == "\n" {
+					return isInput(x.X, depth+1)
+				}
+			}
+		}
+		return false
+	}
+	n := 0
+	for _, lit := range structLits([]*ssa.Function{parse}, "commentparser.input") {
+		for name, v := range lit.fields {
+			if !isString(v.Type()) {
+				continue
+			}
+			n++
+			c.R.Check(isInput(v, 0), "R18.8", "Parse lexes the input itself (plus at most a terminating newline)", p.Pos(lit.alloc.Pos()),
+				"field "+name+" = string(contents) [+ \"\\n\"]", "the text handed to the lexer is derived from the input by "+eng.Describe(v)+": characters are removed or changed before lexing, so line numbers and comment boundaries are those of a different text")
+		}
+	}
+	if n == 0 {
+		// the lexer state type may have been renamed: look for any struct literal in Parse with a string field
+		for _, b := range parse.Blocks {
+			for _, in := range b.Instrs {
+				if st, ok := in.(*ssa.Store); ok && isString(st.Val.Type()) {
+					if _, isFA := st.Addr.(*ssa.FieldAddr); isFA {
+						n++
+						c.R.Check(isInput(st.Val, 0), "R18.8", "Parse lexes the input itself (plus at most a terminating newline)", p.Pos(st.Pos()), "string(contents) [+ newline]", "the text handed to the lexer is derived from the input by "+eng.Describe(st.Val))
+					}
+				}
+			}
+		}
+	}
+	c.R.RequireMin("R18.8", "text handed to the lexer", n, 1)
+}
+
+// checkDocStringFlag: R18.9. A Comment whose text comes from the buffer that collects *string* contents is
+// recorded only under a boolean flag; that flag may become true only behind a successful match of a
+// three-character (triple quote) delimiter.
+func checkDocStringFlag(c *Ctx, p *core.Prog, fns []*ssa.Function, cfg eng.LexConfig) {
+	n := 0
+	for _, f := range fns {
+		for _, lit := range structLits([]*ssa.Function{f}, "commentparser.Comment") {
+			// which boolean phi guards this literal?
+			var flag *ssa.Phi
+			for _, fct := range core.FactsAtInstr(lit.alloc) {
+				if ph, ok := fct.Cond.(*ssa.Phi); ok && fct.Truth && isBool(ph.Type()) {
+					flag = ph
+				}
+			}
+			if flag == nil {
+				continue // comments proper are recorded unconditionally after their delimiters matched
+			}
+			n++
+			ok, why := true, "the flag is raised only behind a successful match of a triple quote"
+			for w := range boolWeb(flag) {
+				ph := w.(*ssa.Phi)
+				for k, e := range ph.Edges {
+					if _, isPhi := e.(*ssa.Phi); isPhi {
+						continue
+					}
+					if cst, isC := e.(*ssa.Const); isC && cst.Value != nil && cst.Value.String() == "false" {
+						continue
+					}
+					pb := ph.Block().Preds[k]
+					behind := false
+					for _, fct := range core.FactsAt(pb) {
+						call, isCall := fct.Cond.(*ssa.Call)
+						if !isCall || !fct.Truth || call.Call.StaticCallee() == nil || len(call.Call.Args) < 2 {
+							continue
+						}
+						if call.Call.StaticCallee() != cfg.MatchLike[0] {
+							continue
+						}
+						if s, isS := core.ConstString(call.Call.Args[1]); isS && len(s) == 3 && s[0] == s[1] && s[1] == s[2] {
+							behind = true
+						}
+					}
+					if !behind {
+						ok, why = false, "the flag that turns string contents into a comment can become true on a path that did not match a triple quote ("+eng.Describe(e)+"): the contents of an ordinary string literal are reported as a comment"
+					}
+				}
+			}
+			c.R.Check(ok, "R18.9", "lex: string contents are recorded as a comment only for triple-quoted (doc)strings", p.Pos(lit.alloc.Pos()), why, why)
+		}
+	}
+	c.R.Count("R18.9:flag-guarded comment literals", n)
 }
